@@ -7,7 +7,8 @@ F-FWD    every parameter of every reader/writer/parser is used, and a keyword fo
          that parameter (nodetype, edgetype, comments, delimiter, create_using, encoding, dual).
 F-DELIM  the text formats join fields with the delimiter they were given and split on the delimiter they were given
          (no literal separator on either side).
-F-2D     a matrix read from a text file is forced two-dimensional (ndmin=2 / atleast_2d / reshape) before it is handed to
+F-2D     a matrix read from a text file keeps both dimensions in their orientation (loader called with ndmin=2; atleast_2d after a
+         squeezing load turns single-column files into single rows) before it is handed to
          from_incidence_matrix, which destructures its shape.
 F-ATOMIC in write_hif / write_json the serialisation happens before the target file is opened for writing.
 F-MODE   the reader of a text format frames and decodes the file the way its writer frames and encodes it: both binary with
@@ -315,17 +316,27 @@ def check_2d(repo, res, fns):
     for c in loads:
         ndmin = next((k.value for k in c.keywords if k.arg == "ndmin"), None)
         ok = isinstance(ndmin, ast.Constant) and ndmin.value == 2
+        why = "np.loadtxt squeezes single-row / single-column files to 1-D and the result reaches from_incidence_matrix (n, m = I.shape) without ndmin=2; a hypergraph with one node or one edge cannot be read back"
         if not ok:
+            # np.atleast_2d / reshape applied afterwards cannot restore the orientation: the loader has already squeezed
+            # an n x 1 file (n nodes, one edge) and a 1 x n file (one node, n edges) to the same 1-D array; atleast_2d
+            # always makes it a row, so the single-edge network comes back as a single node in n edges
             p = par.get(c)
-            if isinstance(p, ast.Call) and getattr(p.func, "attr", getattr(p.func, "id", None)) in ("atleast_2d",):
-                ok = True
-            # assigned to a name that is then reshaped / atleast_2d'ed before use
+            fixed_after = None
+            if isinstance(p, ast.Call) and getattr(p.func, "attr", getattr(p.func, "id", None)) in ("atleast_2d", "reshape"):
+                fixed_after = getattr(p.func, "attr", getattr(p.func, "id", None))
             if isinstance(p, ast.Assign) and isinstance(p.targets[0], ast.Name):
                 v = p.targets[0].id
-                ok = any(isinstance(x, ast.Call) and getattr(x.func, "attr", getattr(x.func, "id", None)) in ("atleast_2d", "reshape") and any(isinstance(y, ast.Name) and y.id == v for y in ast.walk(x)) for x in ast.walk(f.node))
-        res.inst("F-2D", f"read_incidence_matrix:{c.lineno} the loaded array is forced two-dimensional", ok)
+                for x in ast.walk(f.node):
+                    if isinstance(x, ast.Call) and getattr(x.func, "attr", getattr(x.func, "id", None)) in ("atleast_2d", "reshape") and any(isinstance(y, ast.Name) and y.id == v for y in ast.walk(x)):
+                        fixed_after = getattr(x.func, "attr", getattr(x.func, "id", None))
+            if fixed_after == "reshape":
+                raise AnalysisError("read_incidence_matrix: the loaded array is reshaped by hand; whether the row/column orientation of single-row and single-column files survives is not something this rule can see (extractor does not recognise the code)")
+            if fixed_after == "atleast_2d":
+                why = f"np.{getattr(c.func, 'attr', 'loadtxt')} squeezes single-row and single-column files to the same 1-D array and np.atleast_2d always turns that into a row: a file with n rows and one column (n nodes, one edge) is read back as one node in n edges; only the loader itself (np.loadtxt(..., ndmin=2)) knows the orientation"
+        res.inst("F-2D", f"read_incidence_matrix:{c.lineno} the loaded array keeps its two dimensions and their orientation", ok)
         if not ok:
-            res.add(mk_finding(PROP, "F-2D", f, c, "read_incidence_matrix: np.loadtxt squeezes single-row / single-column files to 1-D and the result reaches from_incidence_matrix (n, m = I.shape) without ndmin=2 / atleast_2d; a hypergraph with one node or one edge cannot be read back", role="ndmin"))
+            res.add(mk_finding(PROP, "F-2D", f, c, f"read_incidence_matrix: {why}", role="ndmin"))
     conv = repo.modules.get("xgi.convert.incidence")
     fi = conv.functions.get("from_incidence_matrix") if conv else None
     if fi is not None:
